@@ -265,8 +265,12 @@ func (a Bytes) M__add__(other Object) (Object, error) {
 
 func (a Bytes) M__iadd__(other Object) (Object, error) {
 	if b, ok := convertToBytes(other); ok {
-		a = append(a, b...)
-		return a, nil
+		// bytes is immutable: never append into storage that another
+		// bytes object (an alias or the parent of a slice) may share
+		o := make([]byte, len(a)+len(b))
+		copy(o[:len(a)], a)
+		copy(o[len(a):], b)
+		return Bytes(o), nil
 	}
 	return NotImplemented, nil
 }
